@@ -106,6 +106,9 @@ func gen(r *sim.Rng, tier string) *sim.Case {
 			p["again"] = 1
 		}
 		p["vt"] = r.N(5) // vertex type: int, string, struct, labels with spaces, struct with a non-unique String()
+		if r.Pct(2) {
+			p["bigg"] = 1 // hundreds of vertices, structured (the answer is known by construction)
+		}
 		if p["vt"] != 3 {
 			if r.Pct(12) && nv <= 9 {
 				p["blocks"] = (32+nv-1)/nv + r.N(2) // dozens of vertices: disjoint copies of the small graph
@@ -583,7 +586,119 @@ type vkey struct {
 }
 
 // cliques runs the clique scenario with one of several vertex types (vt): the graph is generic.
+// cliquesBig: hundreds of vertices with a known answer - the disjoint union of complete bipartite
+// graphs (every edge is a maximal clique; their vertices are the dense ones), cycles, paths,
+// small complete graphs and isolated vertices, with the vertex numbers shuffled.
+func cliquesBig(c *sim.Case, out *sim.WorkerOut, dg *engc.Digest) *sim.Violation {
+	r := sim.NewRng(c.EnvSeed ^ 0xb16)
+	target := 256 + r.N(200)
+	var comps [][2]int // kind, size (bipartite: size = a<<8 | b)
+	total := 0
+	for total < target {
+		var k, n int
+		switch k = r.Pick(3, 3, 2, 2, 2); k {
+		case 0: // complete bipartite
+			a, b := r.Range(8, 64), r.Range(8, 64)
+			n = a + b
+			comps = append(comps, [2]int{0, a<<8 | b})
+		case 1: // cycle
+			n = r.Range(4, 130)
+			comps = append(comps, [2]int{1, n})
+		case 2: // path
+			n = r.Range(2, 40)
+			comps = append(comps, [2]int{2, n})
+		case 3: // small complete graph
+			n = r.Range(3, 7)
+			comps = append(comps, [2]int{3, n})
+		default: // isolated vertices
+			n = r.Range(1, 10)
+			comps = append(comps, [2]int{4, n})
+		}
+		total += n
+	}
+	perm := make([]int, total)
+	for i := range perm {
+		perm[i] = i
+	}
+	for i := total - 1; i > 0; i-- {
+		j := r.N(i + 1)
+		perm[i], perm[j] = perm[j], perm[i]
+	}
+	var g algz.Graph[int]
+	want := map[string]bool{}
+	key := func(vs ...int) string {
+		sort.Ints(vs)
+		return fmt.Sprint(vs)
+	}
+	base := 0
+	for _, cp := range comps {
+		id := func(i int) int { return perm[base+i] }
+		switch cp[0] {
+		case 0:
+			a, b := cp[1]>>8, cp[1]&255
+			for i := 0; i < a; i++ {
+				for j := 0; j < b; j++ {
+					g.AddUndirectedEdge(id(i), id(a+j))
+					want[key(id(i), id(a+j))] = true
+				}
+			}
+			base += a + b
+		case 1:
+			for i := 0; i < cp[1]; i++ {
+				g.AddUndirectedEdge(id(i), id((i+1)%cp[1]))
+				want[key(id(i), id((i+1)%cp[1]))] = true
+			}
+			base += cp[1]
+		case 2:
+			for i := 0; i+1 < cp[1]; i++ {
+				g.AddUndirectedEdge(id(i), id(i+1))
+				want[key(id(i), id(i+1))] = true
+			}
+			base += cp[1]
+		case 3:
+			var all []int
+			for i := 0; i < cp[1]; i++ {
+				all = append(all, id(i))
+				for j := i + 1; j < cp[1]; j++ {
+					g.AddUndirectedEdge(id(i), id(j))
+				}
+			}
+			want[key(all...)] = true
+			base += cp[1]
+		default:
+			for i := 0; i < cp[1]; i++ {
+				g.AddNode(id(i))
+				want[key(id(i))] = true
+			}
+			base += cp[1]
+		}
+	}
+	out.Probes["graph_with_hundreds_of_vertices_(dense_and_sparse_components)"]++
+	got := g.GetMaximalCliques()
+	seen := map[string]bool{}
+	for _, cl := range got {
+		k := key(append([]int{}, cl...)...)
+		if seen[k] {
+			return viol("clique_duplicated", "(*Graph).GetMaximalCliques", "clique %v returned twice (%d vertices)", cl, total)
+		}
+		seen[k] = true
+		if !want[k] {
+			return viol("clique_wrong", "(*Graph).GetMaximalCliques", "%v is not a maximal clique of the graph (%d vertices: complete bipartite parts, cycles, paths, small complete graphs, isolated vertices)", cl, total)
+		}
+	}
+	for k := range want {
+		if !seen[k] {
+			return viol("clique_missing", "(*Graph).GetMaximalCliques", "maximal clique %s was not returned (%d returned, %d exist, %d vertices)", k, len(got), len(want), total)
+		}
+	}
+	dg.Add(len(got))
+	return nil
+}
+
 func cliques(c *sim.Case, out *sim.WorkerOut, dg *engc.Digest) *sim.Violation {
+	if c.P("bigg") == 1 {
+		return cliquesBig(c, out, dg)
+	}
 	switch c.P("vt") {
 	case 1:
 		return cliquesT(c, out, dg, func(i int) string { return "v" + strconv.Itoa(i) }, func(s string) int {
